@@ -44,6 +44,27 @@ type PktzCase struct {
 
 var subC06 = register("C06", "train", checkC06)
 
+// appSeq is a Sequencer supplied by the application (the interface is public): a plain counter
+// that also counts how often it was asked.
+type appSeq struct {
+	next  uint16
+	calls int
+	roll  uint64
+}
+
+func (s *appSeq) NextSequenceNumber() uint16 {
+	v := s.next
+	s.next++
+	s.calls++
+	if s.next == 0 {
+		s.roll++
+	}
+
+	return v
+}
+
+func (s *appSeq) RollOverCount() uint64 { return s.roll }
+
 // spy wraps a payloader and records what it was given and what it returned.
 type spy struct {
 	inner rtp.Payloader
@@ -127,8 +148,13 @@ func checkC06(r *run, c *PktzCase) (CaseInfo, error) {
 	inner := makePayloader(c.Payloader)
 	sp := &spy{inner: inner}
 	var seq rtp.Sequencer
+	var app *appSeq
 	if c.SeqMode == "fixed" {
 		seq = rtp.NewFixedSequencer(c.SeqStart)
+	} else if c.SeqMode == "app" {
+		app = &appSeq{next: c.SeqStart}
+		seq = app
+		ci.class("application-supplied-sequencer")
 	} else {
 		seq = rtp.NewRandomSequencer()
 	}
@@ -158,7 +184,7 @@ func checkC06(r *run, c *PktzCase) (CaseInfo, error) {
 		op, j int
 	}
 	var kept []keptPkt
-	if c.SeqMode == "fixed" {
+	if c.SeqMode == "fixed" || c.SeqMode == "app" {
 		haveSeq, nextSeq = true, c.SeqStart
 	}
 	checkCommon := func(i, j int, p *rtp.Packet, what string) error {
@@ -327,6 +353,10 @@ func checkC06(r *run, c *PktzCase) (CaseInfo, error) {
 			acc += op.Samples
 		}
 	}
+	if app != nil && app.calls != len(kept) {
+		// every number drawn from the application's sequencer must appear on a packet
+		return ci, failf("the application-supplied sequencer was asked for %d numbers, %d packets were returned", app.calls, len(kept))
+	}
 	for _, k := range kept {
 		b, err := k.p.Marshal()
 		if err != nil || !bytes.Equal(b, k.wire) {
@@ -354,7 +384,7 @@ func genPktzCase(t *rapid.T) *PktzCase {
 		MTU:       uint16(biased(t, "mtu", 64, 65535, 64, 65, 66, 100, 267, 1200, 1500)),
 		PT:        uint8(rapid.IntRange(0, 127).Draw(t, "pt")),
 		SSRC:      genU32(t, "ssrc"),
-		SeqMode:   rapid.SampledFrom([]string{"fixed", "fixed", "fixed", "random"}).Draw(t, "seqmode"),
+		SeqMode:   rapid.SampledFrom([]string{"fixed", "fixed", "fixed", "random", "app"}).Draw(t, "seqmode"),
 		Payloader: rapid.SampledFrom(c06Payloaders).Draw(t, "payloader"),
 	}
 	c.SeqStart = uint16(biased(t, "seqstart", 0, 65535, 65530, 65531, 65532, 65533, 65534, 65535, 0, 1))
@@ -420,7 +450,7 @@ func genPktzCase(t *rapid.T) *PktzCase {
 	return c
 }
 
-const ruleC06 = "rapid draws a packetizer configuration (MTU 64-65535 biased to 64,65,100,267,1200,1500; PT; SSRC; fixed sequencer with start biased to 65530-65535/0 or random sequencer; abs-send-time off or id 1-255 (one-byte form up to 14, two-byte form above; one operation in twelve calls EnableAbsSendTime again with another id or 0) with an injected clock (instants uniform in 1970-2036 or a small step after the previous call's, in the default or a fixed-offset zone); payloader in {G711,G722,Opus,VP8+-pid,VP9 flexible/non-flexible,H264+-STAP-A,H265+-DONL,AV1, scripted stub}) and 1-10 operations Packetize(non-empty payload, samples)/SkipSamples/GeneratePadding(0-5); one op in six is 'steered': its sample count is computed at run time from the learned first timestamp so that the next timestamp is exactly 0xFFFFFFFF, 0 or 1. Oracle: spy on the payloader (fragments unchanged and in order), sequence/timestamp model (learned first values), fixed fields, marker, abs-send-time = exact 6.18 value of the injected instant, MarshalSize<=MTU, marshal/parse equality, padding packets valid padding-only RTP; every packet returned earlier still serialises to the same bytes after all later calls. Non-trivial = >=2 productive Packetize calls, one with >=2 packets, with a Skip/Padding before one of them; distinct = FNV-64 of the JSON case"
+const ruleC06 = "rapid draws a packetizer configuration (MTU 64-65535 biased to 64,65,100,267,1200,1500; PT; SSRC; fixed sequencer with start biased to 65530-65535/0, random sequencer, or a Sequencer implemented by the harness (every number it hands out must appear on a packet); abs-send-time off or id 1-255 (one-byte form up to 14, two-byte form above; one operation in twelve calls EnableAbsSendTime again with another id or 0) with an injected clock (instants uniform in 1970-2036 or a small step after the previous call's, in the default or a fixed-offset zone); payloader in {G711,G722,Opus,VP8+-pid,VP9 flexible/non-flexible,H264+-STAP-A,H265+-DONL,AV1, scripted stub}) and 1-10 operations Packetize(non-empty payload, samples)/SkipSamples/GeneratePadding(0-5); one op in six is 'steered': its sample count is computed at run time from the learned first timestamp so that the next timestamp is exactly 0xFFFFFFFF, 0 or 1. Oracle: spy on the payloader (fragments unchanged and in order), sequence/timestamp model (learned first values), fixed fields, marker, abs-send-time = exact 6.18 value of the injected instant, MarshalSize<=MTU, marshal/parse equality, padding packets valid padding-only RTP; every packet returned earlier still serialises to the same bytes after all later calls. Non-trivial = >=2 productive Packetize calls, one with >=2 packets, with a Skip/Padding before one of them; distinct = FNV-64 of the JSON case"
 
 func TestC06(t *testing.T) {
 	r := begin(t, "C06", "exploration", ruleC06)
